@@ -34,7 +34,12 @@ pub fn gen_case(seed: u64, focus: &str) -> Value {
     let mut h = rng.fork(2);
     let hash_key = h.next_u64();
     let workers = *h.pick(&[1usize, 1, 1, 2, 4, 8]);
-    json!({"sim": "a", "seed": seed, "focus": focus, "instance": instance, "hash_key": hash_key, "workers": workers, "gen": summary})
+    let mut pr = rng.fork(3);
+    let mut case = json!({"sim": "a", "seed": seed, "focus": focus, "instance": instance, "hash_key": hash_key, "workers": workers, "gen": summary});
+    if let Some(p) = crate::prelude::gen_prelude(&mut pr, &case["instance"], &opts, 1, 3) {
+        case["prelude"] = p;
+    }
+    case
 }
 
 struct StageData {
@@ -221,6 +226,8 @@ pub fn exec_case(case: &Value, want: &BTreeSet<String>) -> RunOutcome {
     let instance = case["instance"].clone();
     let hash_key = case["hash_key"].as_u64().unwrap_or(0);
     let workers = case["workers"].as_u64().unwrap_or(1) as usize;
+    // process history: another instance solved before this one on the same thread and pool
+    let prelude: Option<Value> = case.get("prelude").filter(|p| p.is_object()).cloned();
     let inst = match RefInstance::parse(&instance) {
         Ok(i) => i,
         Err(e) => {
@@ -240,7 +247,13 @@ pub fn exec_case(case: &Value, want: &BTreeSet<String>) -> RunOutcome {
     // ---------------- C17 / C14 are stage-0 / stage-1 direct calls -----------------------------
     if want.contains("C17") {
         let (i2, inst2) = (instance.clone(), inst.clone());
-        match run_isolated(hash_key, 1, move || crate::oracle_net::check_c17(i2, &inst2)) {
+        let pre = prelude.clone();
+        match run_isolated(hash_key, 1, move || {
+            if let Some(p) = &pre {
+                crate::prelude::run(p, true);
+            }
+            crate::oracle_net::check_c17(i2, &inst2)
+        }) {
             Ok((v, nt, pr)) => {
                 ro.violations.extend(v);
                 ro.nontrivial.insert("C17".into(), nt);
@@ -260,7 +273,13 @@ pub fn exec_case(case: &Value, want: &BTreeSet<String>) -> RunOutcome {
     }
     if want.contains("C14") {
         let (i2, inst2) = (instance.clone(), inst.clone());
-        match run_isolated(hash_key, workers, move || crate::oracle_mcf::check_c14(i2, &inst2)) {
+        let pre = prelude.clone();
+        match run_isolated(hash_key, workers, move || {
+            if let Some(p) = &pre {
+                crate::prelude::run(p, false);
+            }
+            crate::oracle_mcf::check_c14(i2, &inst2)
+        }) {
             Ok((v, nt, pr, dg)) => {
                 ro.violations.extend(v);
                 ro.nontrivial.insert("C14".into(), nt);
@@ -282,7 +301,13 @@ pub fn exec_case(case: &Value, want: &BTreeSet<String>) -> RunOutcome {
     // ---------------- entry point A: server::solve_instance with recorders ---------------------
     let (i2, inst2) = (instance.clone(), inst.clone());
     let fixpoint = wants(want, "C08");
-    let rec = match run_isolated(hash_key, workers, move || run_server_pipeline(i2, inst2, fixpoint)) {
+    let pre = prelude.clone();
+    let rec = match run_isolated(hash_key, workers, move || {
+        if let Some(p) = &pre {
+            crate::prelude::run(p, false);
+        }
+        run_server_pipeline(i2, inst2, fixpoint)
+    }) {
         Ok(r) => r,
         Err(p) => {
             ro.outcome = "panic".into();
@@ -296,6 +321,7 @@ pub fn exec_case(case: &Value, want: &BTreeSet<String>) -> RunOutcome {
         ro.violations.push(viol("C17", "C17.identity", e.clone()));
     }
     let mut digest_src = strip_info(&rec.out).to_string();
+    probe(&mut ro, "another_instance_solved_before_on_the_same_threads", prelude.is_some());
 
     let o = match parse_output(&rec.out) {
         Ok(o) => o,
